@@ -1,0 +1,98 @@
+//go:build verif
+
+// Package verifhook provides observation points for external verification
+// harnesses. With the "verif" build tag a harness can register handlers that
+// are called synchronously at the instrumented sites.
+package verifhook
+
+import (
+	"net"
+	"sync"
+	"sync/atomic"
+)
+
+// Enabled reports whether hooks are compiled in.
+const Enabled = true
+
+// Handler is called synchronously at a hook site. A non-nil error is
+// returned to sites that accept an injected error (FireErr) and ignored
+// elsewhere.
+type Handler func(name string, args ...interface{}) error
+
+type table struct {
+	m map[string]Handler
+}
+
+var (
+	mu   sync.Mutex
+	cur  atomic.Value // *table
+	wrap atomic.Value // func(uint64, net.Conn) net.Conn
+)
+
+// Set installs (or, with a nil handler, removes) the handler of a site.
+// The name "*" receives every site that has no handler of its own.
+func Set(name string, h Handler) {
+	mu.Lock()
+	defer mu.Unlock()
+	old, _ := cur.Load().(*table)
+	nt := &table{m: map[string]Handler{}}
+	if old != nil {
+		for k, v := range old.m {
+			nt.m[k] = v
+		}
+	}
+	if h == nil {
+		delete(nt.m, name)
+	} else {
+		nt.m[name] = h
+	}
+	cur.Store(nt)
+}
+
+// Reset removes every handler.
+func Reset() {
+	mu.Lock()
+	defer mu.Unlock()
+	cur.Store(&table{m: map[string]Handler{}})
+	wrap.Store((func(uint64, net.Conn) net.Conn)(nil))
+}
+
+func lookup(name string) Handler {
+	t, _ := cur.Load().(*table)
+	if t == nil {
+		return nil
+	}
+	if h := t.m[name]; h != nil {
+		return h
+	}
+	return t.m["*"]
+}
+
+// Fire reports that a named site was reached.
+func Fire(name string, args ...interface{}) {
+	if h := lookup(name); h != nil {
+		_ = h(name, args...)
+	}
+}
+
+// FireErr reports that a named site was reached and lets a handler inject an error.
+func FireErr(name string, args ...interface{}) error {
+	if h := lookup(name); h != nil {
+		return h(name, args...)
+	}
+	return nil
+}
+
+// SetConnWrapper installs a function applied to every connection dialed to a node.
+func SetConnWrapper(f func(nodeID uint64, conn net.Conn) net.Conn) {
+	wrap.Store(f)
+}
+
+// WrapConn lets a handler wrap a connection dialed to a node.
+func WrapConn(nodeID uint64, conn net.Conn) net.Conn {
+	f, _ := wrap.Load().(func(uint64, net.Conn) net.Conn)
+	if f == nil {
+		return conn
+	}
+	return f(nodeID, conn)
+}
